@@ -712,3 +712,75 @@ pub fn reset() {
     reset_time();
     CONTRACT.with(|c| *c.borrow_mut() = Contract::default());
 }
+
+
+/// environment of the transplanted Network::get_record_from_network (C05): one-shot channels and a model driver that
+/// answers every GetNetworkRecord command at once with the next outcome of the harness's script
+pub mod retry {
+    use libp2p::kad::{Record, RecordKey};
+    use std::cell::{Cell, RefCell};
+    use std::collections::VecDeque;
+    use std::rc::Rc;
+    pub mod oneshot {
+        use std::cell::RefCell;
+        use std::future::Future;
+        use std::pin::Pin;
+        use std::rc::Rc;
+        use std::task::{Context, Poll};
+        pub struct Sender<T>(Rc<RefCell<Option<T>>>);
+        pub struct Receiver<T>(Rc<RefCell<Option<T>>>, Rc<()>);
+        #[derive(Debug)]
+        pub struct RecvError;
+        pub fn channel<T>() -> (Sender<T>, Receiver<T>) {
+            let slot = Rc::new(RefCell::new(None));
+            (Sender(slot.clone()), Receiver(slot, Rc::new(())))
+        }
+        impl<T> Sender<T> {
+            pub fn send(self, v: T) -> Result<(), T> {
+                *self.0.borrow_mut() = Some(v);
+                Ok(())
+            }
+        }
+        impl<T> Future for Receiver<T> {
+            type Output = Result<T, RecvError>;
+            fn poll(self: Pin<&mut Self>, _cx: &mut Context<'_>) -> Poll<Self::Output> {
+                match self.0.borrow_mut().take() {
+                    Some(v) => Poll::Ready(Ok(v)),
+                    // the sender was dropped without answering (the model driver always answers or drops at once)
+                    None => Poll::Ready(Err(RecvError)),
+                }
+            }
+        }
+    }
+    pub enum NetworkSwarmCmd {
+        GetNetworkRecord { key: RecordKey, sender: oneshot::Sender<Result<Record, ::ant_networking::GetRecordError>>, cfg: ::ant_networking::GetRecordCfg },
+    }
+    #[derive(Default)]
+    pub struct Network {
+        /// outcome of the 1st, 2nd, ... query; `None` = the driver drops the sender
+        pub script: RefCell<VecDeque<Option<Result<Record, ::ant_networking::GetRecordError>>>>,
+        pub queries: Cell<usize>,
+        pub slept: Cell<usize>,
+    }
+    thread_local! { static SLEPT: Cell<usize> = Cell::new(0); }
+    pub fn slept() -> usize {
+        SLEPT.with(|s| s.get())
+    }
+    pub fn reset() {
+        SLEPT.with(|s| s.set(0));
+    }
+    pub async fn sleep(_d: std::time::Duration) {
+        SLEPT.with(|s| s.set(s.get() + 1));
+    }
+    impl Network {
+        pub fn send_network_swarm_cmd(&self, cmd: NetworkSwarmCmd) {
+            let NetworkSwarmCmd::GetNetworkRecord { sender, .. } = cmd;
+            self.queries.set(self.queries.get() + 1);
+            if let Some(Some(outcome)) = self.script.borrow_mut().pop_front() {
+                let _ = sender.send(outcome);
+            }
+        }
+    }
+    #[allow(dead_code)]
+    fn _unused(_: Rc<()>) {}
+}
